@@ -45,49 +45,57 @@ XBase(n) == CASE n = "pyramid5" -> Pyramid5
 
 ASSUME NameSet \subseteq (Names \cup XNames)
 
-VARIABLES np, fp      \* renumbering of nodes / faces: << >> = none
-dvars == <<name, rot, cut, np, fp>>
+VARIABLES np, fp,     \* renumbering of nodes / faces: << >> = none
+          m           \* the mesh of this state (explicit tuples), computed once per state
+dvars == <<name, rot, cut, np, fp, m>>
 
 \* TLC keeps [x \in S |-> e] unevaluated and re-evaluates e at every application; SubSeq forces
-\* an explicit tuple, so a mesh is computed once per state instead of once per corner access
+\* an explicit tuple, and the mesh is a state variable so it is computed once per state
 Tup(s)  == SubSeq(s, 1, Len(s))
-Norm(m) == [ name  |-> m.name,
-             nodes |-> Tup([ k \in 1..Len(m.nodes) |-> Tup(m.nodes[k]) ]),
-             faces |-> Tup([ f \in 1..Len(m.faces) |-> Tup(m.faces[f]) ]) ]
-DBase == XBase(name)
-DEntry == LET b == Norm(DBase)
-              r == IF rot = 0 THEN b ELSE Rotated(b, Rots[rot], b.name)
-              keep == { f \in 1..Len(r.faces) : cut = 0 \/ f % cut # 0 }
-              c == IF cut = 0 THEN r ELSE SubMesh(r, keep, r.name)
-          IN Norm(IF np = << >> THEN c ELSE Renum(c, np, fp))
+Norm(x) == [ name  |-> x.name,
+             nodes |-> Tup([ k \in 1..Len(x.nodes) |-> Tup(x.nodes[k]) ]),
+             faces |-> Tup([ f \in 1..Len(x.faces) |-> Tup(x.faces[f]) ]) ]
+\* The convex hulls are the expensive part, so a mesh is built once (Load, one step per name, spread
+\* over TLC's workers) and its rotations / cuts / renumberings are derived from the explicit value.
+Unloaded == -1
+Base(n)  == Norm(XBase(n))
+CutOf(x, cu) == SubMesh(x, { f \in 1..Len(x.faces) : f % cu # 0 }, x.name)
 
 IdPerm(n) == [ i \in 1..n |-> i ]
-DInit == name \in NameSet /\ rot = 0 /\ cut = 0 /\ np = << >> /\ fp = << >>
-DNext == \/ (rot = 0 /\ cut = 0 /\ np = << >> /\ rot' \in RotSet /\ UNCHANGED <<name, cut, np, fp>>)
-         \/ (cut = 0 /\ np = << >> /\ cut' \in CutSet /\ UNCHANGED <<name, rot, np, fp>>)
-         \/ (rot = 0 /\ cut = 0 /\ np = << >> /\ name \in PermNodes
-               /\ np' \in PermsOf(Len(DBase.nodes))
-               /\ fp' \in (IF name \in PermFaces THEN PermsOf(Len(DBase.faces)) ELSE { IdPerm(Len(DBase.faces)) })
-               /\ UNCHANGED <<name, rot, cut>>)
+DInit == name \in NameSet /\ rot = Unloaded /\ cut = 0 /\ np = << >> /\ fp = << >> /\ m = << >>
+DNext == \/ /\ rot = Unloaded
+            /\ rot' = 0 /\ m' = Base(name) /\ UNCHANGED <<name, cut, np, fp>>
+         \/ /\ rot = 0 /\ cut = 0 /\ np = << >>
+            /\ rot' \in RotSet /\ UNCHANGED <<name, cut, np, fp>>
+            /\ m' = Norm(Rotated(m, Rots[rot'], m.name))
+         \/ /\ rot >= 0 /\ cut = 0 /\ np = << >>
+            /\ cut' \in CutSet /\ UNCHANGED <<name, rot, np, fp>>
+            /\ m' = Norm(CutOf(m, cut'))
+         \/ /\ rot = 0 /\ cut = 0 /\ np = << >> /\ name \in PermNodes
+            /\ np' \in PermsOf(Len(m.nodes))
+            /\ fp' \in (IF name \in PermFaces THEN PermsOf(Len(m.faces)) ELSE { IdPerm(Len(m.faces)) })
+            /\ UNCHANGED <<name, rot, cut>>
+            /\ m' = Norm(Renum(m, np', fp'))
+Loaded == rot # Unloaded
 
-Surrounded(m) == { v \in 0..(Len(m.nodes) - 1) : Valence(m.faces, v) >= 1 /\ InteriorNode(m.faces, v) }
+Surrounded(x) == { v \in 0..(Len(x.nodes) - 1) : Valence(x.faces, v) >= 1 /\ InteriorNode(x.faces, v) }
 
-WellFormedD  == IF cut = 0 THEN ClosedOK(DEntry) ELSE PartialOK(DEntry)
-RingLaws     == LET m == DEntry IN
+WellFormedD  == Loaded => IF cut = 0 THEN ClosedOK(m) ELSE PartialOK(m)
+RingLaws     == Loaded =>
                 /\ (cut = 0 => Surrounded(m) = 0..(Len(m.nodes) - 1))
                 /\ \A v \in Surrounded(m) :
                       /\ SingleCycle(m.faces, v)
                       /\ ConsecutiveShareSideAt(m.faces, v, DualRing(m.faces, v))
                       /\ ~DualRingCW(m.faces, v, DualRing(m.faces, v))        \* orientation is decided, valence >= 3
-RingGeometry == LET m == DEntry IN
+RingGeometry == Loaded =>
                 /\ SumInside(m)
                 /\ \A v \in Surrounded(m) : RingWedges(m, v) /\ RingCentres(m, v) /\ RingCentresReversedRejected(m, v)
-DualityLaws  == cut = 0 => LET m == DEntry IN
+DualityLaws  == Loaded /\ cut = 0 =>
                               /\ EulerDuality(m.faces, Len(m.nodes))
                               /\ DualInvolution(m.faces, Len(m.nodes))
-RenumLaw     == np # << >> => RenumCommutes(DBase, np, fp)
+RenumLaw     == np # << >> => RenumCommutes(Base(name), np, fp)
 
-EmitCase == LET m == DEntry IN
+EmitCase == Loaded =>
     PrintT(<<"CASE", [ name |-> name, rot |-> rot, cut |-> cut, np |-> np, fp |-> fp,
                        nodes |-> m.nodes, faces |-> m.faces, closed |-> (cut = 0),
                        expect |-> [ k \in 1..Len(m.nodes) |-> DualRing(m.faces, k - 1) ],
